@@ -1,7 +1,506 @@
-//! C12 operations (op names start with `c12.`)
-#[allow(unused_imports)]
+//! C12 — every public producer of `NonZero<T>` / `Odd<T>` (T = Limb, Uint<1|2|4>, Int<1|2|4>, BoxedUint),
+//! called on the REAL crate.  Each produced wrapper is printed through `tag`, which evaluates the
+//! invariant predicate on the raw words (independently of the crate's `is_zero` / `is_odd`):
+//! a wrapper that holds an invalid value prints `INVALID:<hex>`.
+//!
+//! op names: `c12.<nz|odd>.<l|u|i|b>.<producer>`; `u`/`i` ops take the limb count first, `b` ops
+//! the limb count of the boxed operand.  RNG streams are `x`-hex byte strings, a multiple of 8
+//! bytes long, consumed as little-endian 64-bit words by a buffer-fed `TryRngCore`.
 use crate::util::*;
+use core::num::{NonZeroU8, NonZeroU16, NonZeroU32, NonZeroU64, NonZeroU128};
+use crypto_bigint::modular::{BoxedMontyParams, MontyParams};
+use crypto_bigint::rand_core::{RngCore, TryRngCore};
+use crypto_bigint::subtle::{ConditionallySelectable, CtOption};
+use crypto_bigint::zeroize::Zeroize;
+use crypto_bigint::{BoxedUint, ByteArray, ConstCtOption, Encoding, Int, Limb, NonZero, Odd, Random, Uint, Word};
 
-pub fn dispatch(_op: &str, _a: &[&str]) -> Option<String> {
-    None
+// ------------------------------------------------------------------ canonical printing
+
+fn tag(valid: bool, s: String) -> String {
+    if valid { s } else { format!("INVALID:{s}") }
+}
+fn nonzero_words(w: &[Word]) -> bool {
+    w.iter().any(|x| *x != 0)
+}
+fn odd_words(w: &[Word]) -> bool {
+    w.first().map(|x| x & 1 == 1).unwrap_or(false)
+}
+fn nzl(w: &NonZero<Limb>) -> String {
+    tag(w.as_ref().0 != 0, lhex(*w.as_ref()))
+}
+fn oddl(w: &Odd<Limb>) -> String {
+    tag(w.as_ref().0 & 1 == 1, lhex(*w.as_ref()))
+}
+fn nzu<const N: usize>(w: &NonZero<Uint<N>>) -> String {
+    tag(nonzero_words(w.as_ref().as_words()), uhex(w.as_ref()))
+}
+fn oddu<const N: usize>(w: &Odd<Uint<N>>) -> String {
+    tag(odd_words(w.as_ref().as_words()), uhex(w.as_ref()))
+}
+fn nzi<const N: usize>(w: &NonZero<Int<N>>) -> String {
+    tag(nonzero_words(w.as_ref().as_uint().as_words()), ihex(w.as_ref()))
+}
+fn oddi<const N: usize>(w: &Odd<Int<N>>) -> String {
+    tag(odd_words(w.as_ref().as_uint().as_words()), ihex(w.as_ref()))
+}
+fn nzb(w: &NonZero<BoxedUint>) -> String {
+    tag(nonzero_words(w.as_ref().as_words()), bhexlen(w.as_ref()))
+}
+fn oddb(w: &Odd<BoxedUint>) -> String {
+    tag(odd_words(w.as_ref().as_words()), bhexlen(w.as_ref()))
+}
+fn ct<T>(o: CtOption<T>, f: impl Fn(&T) -> String) -> String {
+    let o: Option<T> = o.into();
+    o.map(|v| f(&v)).unwrap_or_else(|| "none".into())
+}
+fn cct<T>(o: ConstCtOption<T>, f: impl Fn(&T) -> String) -> String {
+    let o: Option<T> = o.into();
+    o.map(|v| f(&v)).unwrap_or_else(|| "none".into())
+}
+fn opt<T>(o: CtOption<T>) -> Option<T> {
+    o.into()
+}
+fn u128tok(s: &str) -> Option<u128> {
+    if s.is_empty() || s.len() > 32 {
+        return None;
+    }
+    u128::from_str_radix(s, 16).ok()
+}
+fn text(s: &str) -> Option<String> {
+    String::from_utf8(bytes(s)?).ok()
+}
+fn deser_err(e: bincode::Error) -> String {
+    match *e {
+        bincode::ErrorKind::Custom(m) if m.starts_with("invalid value: zero") => "err:zero".into(),
+        bincode::ErrorKind::Custom(m) if m.starts_with("invalid value: even") => "err:even".into(),
+        bincode::ErrorKind::Custom(_) => "err:custom".into(),
+        _ => "err:decode".into(),
+    }
+}
+
+// ------------------------------------------------------------------ buffer-fed RNGs
+
+/// fallible: the words of the buffer, then `Err(Exhausted)`
+struct BufRng {
+    words: Vec<u64>,
+    pos: usize,
+}
+#[derive(Debug)]
+struct Exhausted;
+impl core::fmt::Display for Exhausted {
+    fn fmt(&self, f: &mut core::fmt::Formatter<'_>) -> core::fmt::Result {
+        write!(f, "exhausted")
+    }
+}
+fn words_of(s: &str) -> Option<Vec<u64>> {
+    let b = bytes(s)?;
+    if b.len() % 8 != 0 {
+        return None;
+    }
+    Some(b.chunks(8).map(|c| u64::from_le_bytes(c.try_into().unwrap())).collect())
+}
+impl BufRng {
+    fn new(s: &str) -> Option<Self> {
+        Some(Self { words: words_of(s)?, pos: 0 })
+    }
+    fn pop(&mut self) -> Result<u64, Exhausted> {
+        let w = *self.words.get(self.pos).ok_or(Exhausted)?;
+        self.pos += 1;
+        Ok(w)
+    }
+}
+impl TryRngCore for BufRng {
+    type Error = Exhausted;
+    fn try_next_u32(&mut self) -> Result<u32, Exhausted> {
+        Ok(self.pop()? as u32)
+    }
+    fn try_next_u64(&mut self) -> Result<u64, Exhausted> {
+        self.pop()
+    }
+    fn try_fill_bytes(&mut self, dst: &mut [u8]) -> Result<(), Exhausted> {
+        for c in dst.chunks_mut(8) {
+            let w = self.pop()?.to_le_bytes();
+            c.copy_from_slice(&w[..c.len()]);
+        }
+        Ok(())
+    }
+}
+/// infallible: the words of the buffer, then all-ones words for ever
+struct TailRng {
+    words: Vec<u64>,
+    pos: usize,
+}
+impl TailRng {
+    fn new(s: &str) -> Option<Self> {
+        Some(Self { words: words_of(s)?, pos: 0 })
+    }
+    fn pop(&mut self) -> u64 {
+        let w = self.words.get(self.pos).copied().unwrap_or(u64::MAX);
+        self.pos += 1;
+        w
+    }
+}
+impl RngCore for TailRng {
+    fn next_u32(&mut self) -> u32 {
+        self.pop() as u32
+    }
+    fn next_u64(&mut self) -> u64 {
+        self.pop()
+    }
+    fn fill_bytes(&mut self, dst: &mut [u8]) {
+        for c in dst.chunks_mut(8) {
+            let w = self.pop().to_le_bytes();
+            c.copy_from_slice(&w[..c.len()]);
+        }
+    }
+}
+
+// ------------------------------------------------------------------ primitives -> NonZero
+
+macro_rules! from_prim {
+    ($T:ty, $bits:expr, $v:expr, $via_from:expr, $pr:ident, [$(($b:literal, $P:ty, $p:ty, $f:ident)),*]) => {
+        match $bits {
+            $($b => {
+                if $v > <$p>::MAX as u128 { return Some(BAD.into()); }
+                match <$P>::new($v as $p) {
+                    None => "none".to_string(),
+                    Some(p) => if $via_from { $pr(&<NonZero<$T>>::from(p)) } else { $pr(&<NonZero<$T>>::$f(p)) },
+                }
+            })*
+            _ => return Some(BAD.into()),
+        }
+    };
+}
+
+// ------------------------------------------------------------------ Limb
+
+fn limb_ops(op: &str, a: &[&str]) -> Option<String> {
+    Some(match (op, a) {
+        ("c12.nz.l.new", [v]) => ct(NonZero::new(arg!(limb(v))), nzl),
+        ("c12.nz.l.new_unwrap", [v]) => nzl(&NonZero::<Limb>::new_unwrap(arg!(limb(v)))),
+        ("c12.nz.l.to_nz", [v]) => cct(arg!(limb(v)).to_nz(), nzl),
+        ("c12.nz.l.to_nz_expect", [v]) => nzl(&arg!(limb(v)).to_nz().expect("c12")),
+        ("c12.nz.l.from_prim", [bits, v]) | ("c12.nz.l.from_into", [bits, v]) => {
+            let (bits, v, via) = (arg!(dec(bits)), arg!(u128tok(v)), op.ends_with("from_into"));
+            from_prim!(Limb, bits, v, via, nzl, [(8, NonZeroU8, u8, from_u8), (16, NonZeroU16, u16, from_u16),
+                (32, NonZeroU32, u32, from_u32), (64, NonZeroU64, u64, from_u64)])
+        }
+        ("c12.nz.l.const", ["one"]) => nzl(&NonZero::<Limb>::ONE),
+        ("c12.nz.l.const", ["max"]) => nzl(&NonZero::<Limb>::MAX),
+        ("c12.nz.l.default", []) => nzl(&NonZero::<Limb>::default()),
+        ("c12.odd.l.default", []) => oddl(&Odd::<Limb>::default()),
+        ("c12.nz.l.from_be_bytes", [b]) => {
+            let r: [u8; 8] = arg!(arg!(bytes(b)).try_into().ok());
+            ct(NonZero::<Limb>::from_be_bytes(r), nzl)
+        }
+        ("c12.nz.l.from_le_bytes", [b]) => {
+            let r: [u8; 8] = arg!(arg!(bytes(b)).try_into().ok());
+            ct(NonZero::<Limb>::from_le_bytes(r), nzl)
+        }
+        ("c12.nz.l.select", [x, y, c]) | ("c12.nz.l.cassign", [x, y, c]) | ("c12.nz.l.cswap", [x, y, c]) => {
+            let c = arg!(tochoice(c));
+            match (opt(NonZero::new(arg!(limb(x)))), opt(NonZero::new(arg!(limb(y))))) {
+                (Some(x), Some(y)) => {
+                    if op.ends_with("select") {
+                        nzl(&NonZero::conditional_select(&x, &y, c))
+                    } else if op.ends_with("cassign") {
+                        let mut z = x;
+                        z.conditional_assign(&y, c);
+                        nzl(&z)
+                    } else {
+                        let (mut p, mut q) = (x, y);
+                        ConditionallySelectable::conditional_swap(&mut p, &mut q, c);
+                        format!("{} {}", nzl(&p), nzl(&q))
+                    }
+                }
+                _ => "none".into(),
+            }
+        }
+        ("c12.nz.l.random", [s]) => {
+            let mut r = arg!(BufRng::new(s));
+            match NonZero::<Limb>::try_random(&mut r) {
+                Ok(w) => format!("{} {}", nzl(&w), r.pos),
+                Err(_) => "err:exhausted".into(),
+            }
+        }
+        ("c12.nz.l.random_inf", [s]) => {
+            let mut r = arg!(TailRng::new(s));
+            let w = NonZero::<Limb>::random(&mut r);
+            format!("{} {}", nzl(&w), r.pos)
+        }
+        ("c12.nz.l.deser", [b]) => match bincode::deserialize::<NonZero<Limb>>(&arg!(bytes(b))) {
+            Ok(w) => nzl(&w),
+            Err(e) => deser_err(e),
+        },
+        ("c12.nz.l.zeroize", [v]) => match opt(NonZero::new(arg!(limb(v)))) {
+            Some(mut w) => {
+                w.zeroize();
+                nzl(&w)
+            }
+            None => "none".into(),
+        },
+        _ => return None,
+    })
+}
+
+// ------------------------------------------------------------------ Uint<N> / Int<N>, N in {1,2,4}
+
+macro_rules! fixed_impl {
+    ($fname:ident, $N:literal) => {
+        fn $fname(op: &str, a: &[&str]) -> Option<String> {
+            const N: usize = $N;
+            type U = Uint<$N>;
+            type I = Int<$N>;
+            Some(match (op, a) {
+                // ---- NonZero<Uint>
+                ("c12.nz.u.new", [v]) => ct(NonZero::new(arg!(uint::<N>(v))), nzu),
+                ("c12.nz.u.new_unwrap", [v]) => nzu(&NonZero::<U>::new_unwrap(arg!(uint::<N>(v)))),
+                ("c12.nz.u.to_nz", [v]) => cct(arg!(uint::<N>(v)).to_nz(), nzu),
+                ("c12.nz.u.to_nz_expect", [v]) => nzu(&arg!(uint::<N>(v)).to_nz().expect("c12")),
+                ("c12.nz.u.from_prim", [bits, v]) | ("c12.nz.u.from_into", [bits, v]) => {
+                    let (bits, v, via) = (arg!(dec(bits)), arg!(u128tok(v)), op.ends_with("from_into"));
+                    from_prim!(U, bits, v, via, nzu, [(8, NonZeroU8, u8, from_u8), (16, NonZeroU16, u16, from_u16),
+                        (32, NonZeroU32, u32, from_u32), (64, NonZeroU64, u64, from_u64), (128, NonZeroU128, u128, from_u128)])
+                }
+                ("c12.nz.u.const", ["one"]) => nzu(&NonZero::<U>::ONE),
+                ("c12.nz.u.const", ["max"]) => nzu(&NonZero::<U>::MAX),
+                ("c12.nz.u.default", []) => nzu(&NonZero::<U>::default()),
+                ("c12.nz.u.from_be_bytes", [b]) => {
+                    let r = arg!(<U as Encoding>::Repr::try_from(&arg!(bytes(b))[..]).ok());
+                    ct(NonZero::<U>::from_be_bytes(r), nzu)
+                }
+                ("c12.nz.u.from_le_bytes", [b]) => {
+                    let r = arg!(<U as Encoding>::Repr::try_from(&arg!(bytes(b))[..]).ok());
+                    ct(NonZero::<U>::from_le_bytes(r), nzu)
+                }
+                ("c12.nz.u.from_be_byte_array", [b]) => {
+                    let r = arg!(ByteArray::<U>::try_from(&arg!(bytes(b))[..]).ok());
+                    ct(NonZero::<U>::from_be_byte_array(r), nzu)
+                }
+                ("c12.nz.u.from_le_byte_array", [b]) => {
+                    let r = arg!(ByteArray::<U>::try_from(&arg!(bytes(b))[..]).ok());
+                    ct(NonZero::<U>::from_le_byte_array(r), nzu)
+                }
+                ("c12.nz.u.select", [x, y, c]) | ("c12.nz.u.cassign", [x, y, c]) | ("c12.nz.u.cswap", [x, y, c]) => {
+                    let c = arg!(tochoice(c));
+                    match (opt(NonZero::new(arg!(uint::<N>(x)))), opt(NonZero::new(arg!(uint::<N>(y))))) {
+                        (Some(x), Some(y)) => {
+                            if op.ends_with("select") {
+                                nzu(&NonZero::conditional_select(&x, &y, c))
+                            } else if op.ends_with("cassign") {
+                                let mut z = x;
+                                z.conditional_assign(&y, c);
+                                nzu(&z)
+                            } else {
+                                let (mut p, mut q) = (x, y);
+                                ConditionallySelectable::conditional_swap(&mut p, &mut q, c);
+                                format!("{} {}", nzu(&p), nzu(&q))
+                            }
+                        }
+                        _ => "none".into(),
+                    }
+                }
+                ("c12.nz.u.random", [s]) => {
+                    let mut r = arg!(BufRng::new(s));
+                    match NonZero::<U>::try_random(&mut r) {
+                        Ok(w) => format!("{} {}", nzu(&w), r.pos),
+                        Err(_) => "err:exhausted".into(),
+                    }
+                }
+                ("c12.nz.u.random_inf", [s]) => {
+                    let mut r = arg!(TailRng::new(s));
+                    let w = NonZero::<U>::random(&mut r);
+                    format!("{} {}", nzu(&w), r.pos)
+                }
+                ("c12.nz.u.deser", [b]) => match bincode::deserialize::<NonZero<U>>(&arg!(bytes(b))) {
+                    Ok(w) => nzu(&w),
+                    Err(e) => deser_err(e),
+                },
+                ("c12.nz.u.zeroize", [v]) => match opt(NonZero::new(arg!(uint::<N>(v)))) {
+                    Some(mut w) => {
+                        w.zeroize();
+                        nzu(&w)
+                    }
+                    None => "none".into(),
+                },
+                ("c12.nz.u.clone", [v]) => ct(NonZero::new(arg!(uint::<N>(v))), |w| nzu(&w.clone())),
+                // ---- NonZero<Int>
+                ("c12.nz.i.new", [v]) => ct(NonZero::new(arg!(int::<N>(v))), nzi),
+                ("c12.nz.i.to_nz", [v]) => cct(arg!(int::<N>(v)).to_nz(), nzi),
+                ("c12.nz.i.const", ["one"]) => nzi(&NonZero::<I>::ONE),
+                ("c12.nz.i.const", ["max"]) => nzi(&NonZero::<I>::MAX),
+                ("c12.nz.i.default", []) => nzi(&NonZero::<I>::default()),
+                ("c12.nz.i.select", [x, y, c]) => {
+                    let c = arg!(tochoice(c));
+                    match (opt(NonZero::new(arg!(int::<N>(x)))), opt(NonZero::new(arg!(int::<N>(y))))) {
+                        (Some(x), Some(y)) => nzi(&NonZero::conditional_select(&x, &y, c)),
+                        _ => "none".into(),
+                    }
+                }
+                ("c12.nz.i.random", [s]) => {
+                    let mut r = arg!(BufRng::new(s));
+                    match NonZero::<I>::try_random(&mut r) {
+                        Ok(w) => format!("{} {}", nzi(&w), r.pos),
+                        Err(_) => "err:exhausted".into(),
+                    }
+                }
+                ("c12.nz.i.abs_sign", [v]) => {
+                    let w: Option<NonZero<I>> = arg!(int::<N>(v)).to_nz().into();
+                    match w {
+                        Some(w) => {
+                            let (abs, sgn) = w.abs_sign();
+                            format!("{} {}", nzu(&abs), cchoice(sgn))
+                        }
+                        None => "none".into(),
+                    }
+                }
+                // ---- Odd<Uint>
+                ("c12.odd.u.new", [v]) => ct(Odd::new(arg!(uint::<N>(v))), oddu),
+                ("c12.odd.u.to_odd", [v]) => cct(arg!(uint::<N>(v)).to_odd(), oddu),
+                ("c12.odd.u.to_odd_expect", [v]) => oddu(&arg!(uint::<N>(v)).to_odd().expect("c12")),
+                ("c12.odd.u.default", []) => oddu(&Odd::<U>::default()),
+                ("c12.odd.u.default_as_nz", []) => nzu(Odd::<U>::default().as_nz_ref()),
+                ("c12.odd.u.from_be_hex", [t]) => oddu(&Odd::<U>::from_be_hex(&arg!(text(t)))),
+                ("c12.odd.u.from_le_hex", [t]) => oddu(&Odd::<U>::from_le_hex(&arg!(text(t)))),
+                ("c12.odd.u.select", [x, y, c]) | ("c12.odd.u.cassign", [x, y, c]) | ("c12.odd.u.cswap", [x, y, c]) => {
+                    let c = arg!(tochoice(c));
+                    match (opt(Odd::new(arg!(uint::<N>(x)))), opt(Odd::new(arg!(uint::<N>(y))))) {
+                        (Some(x), Some(y)) => {
+                            if op.ends_with("select") {
+                                oddu(&Odd::conditional_select(&x, &y, c))
+                            } else if op.ends_with("cassign") {
+                                let mut z = x;
+                                z.conditional_assign(&y, c);
+                                oddu(&z)
+                            } else {
+                                let (mut p, mut q) = (x, y);
+                                ConditionallySelectable::conditional_swap(&mut p, &mut q, c);
+                                format!("{} {}", oddu(&p), oddu(&q))
+                            }
+                        }
+                        _ => "none".into(),
+                    }
+                }
+                ("c12.odd.u.random", [s]) => {
+                    let mut r = arg!(BufRng::new(s));
+                    match Odd::<U>::try_random(&mut r) {
+                        Ok(w) => format!("{} {}", oddu(&w), r.pos),
+                        Err(_) => "err:exhausted".into(),
+                    }
+                }
+                ("c12.odd.u.random_inf", [s]) => {
+                    let mut r = arg!(TailRng::new(s));
+                    let w = Odd::<U>::random(&mut r);
+                    format!("{} {}", oddu(&w), r.pos)
+                }
+                ("c12.odd.u.deser", [b]) => match bincode::deserialize::<Odd<U>>(&arg!(bytes(b))) {
+                    Ok(w) => oddu(&w),
+                    Err(e) => deser_err(e),
+                },
+                ("c12.odd.u.as_nz_ref", [v]) => ct(Odd::new(arg!(uint::<N>(v))), |w| nzu(w.as_nz_ref())),
+                ("c12.odd.u.as_ref_nz", [v]) => ct(Odd::new(arg!(uint::<N>(v))), |w| {
+                    let r: &NonZero<U> = AsRef::<NonZero<U>>::as_ref(w);
+                    nzu(r)
+                }),
+                ("c12.odd.u.zeroize", [v]) => match opt(Odd::new(arg!(uint::<N>(v)))) {
+                    Some(mut w) => {
+                        w.zeroize();
+                        oddu(&w)
+                    }
+                    None => "none".into(),
+                },
+                ("c12.odd.u.clone", [v]) => ct(Odd::new(arg!(uint::<N>(v))), |w| oddu(&w.clone())),
+                ("c12.odd.u.into_boxed", [v]) => ct(Odd::new(arg!(uint::<N>(v))), |w| oddb(&Odd::<BoxedUint>::from(*w))),
+                ("c12.odd.u.ref_into_boxed", [v]) => ct(Odd::new(arg!(uint::<N>(v))), |w| oddb(&Odd::<BoxedUint>::from(w))),
+                ("c12.odd.u.monty_modulus", [v]) => {
+                    ct(Odd::new(arg!(uint::<N>(v))), |w| oddu(MontyParams::<N>::new_vartime(*w).modulus()))
+                }
+                // ---- Odd<Int>
+                ("c12.odd.i.to_odd", [v]) => cct(arg!(int::<N>(v)).to_odd(), oddi),
+                ("c12.odd.i.default", []) => oddi(&Odd::<I>::default()),
+                ("c12.odd.i.select", [x, y, c]) => {
+                    let c = arg!(tochoice(c));
+                    let (x, y): (Option<Odd<I>>, Option<Odd<I>>) = (arg!(int::<N>(x)).to_odd().into(), arg!(int::<N>(y)).to_odd().into());
+                    match (x, y) {
+                        (Some(x), Some(y)) => oddi(&Odd::conditional_select(&x, &y, c)),
+                        _ => "none".into(),
+                    }
+                }
+                _ => return None,
+            })
+        }
+    };
+}
+fixed_impl!(fixed1, 1);
+fixed_impl!(fixed2, 2);
+fixed_impl!(fixed4, 4);
+
+// ------------------------------------------------------------------ BoxedUint
+
+fn boxed_ops(op: &str, a: &[&str]) -> Option<String> {
+    Some(match (op, a) {
+        ("c12.nz.b.new", [k, v]) => ct(NonZero::new(arg!(boxed(v, arg!(dec(k))))), nzb),
+        ("c12.nz.b.widen", [k, v, bits]) => {
+            let bits = arg!(dec32(bits));
+            ct(NonZero::new(arg!(boxed(v, arg!(dec(k))))), |w| nzb(&w.widen(bits)))
+        }
+        ("c12.nz.b.clone", [k, v]) => ct(NonZero::new(arg!(boxed(v, arg!(dec(k))))), |w| nzb(&w.clone())),
+        ("c12.nz.b.zeroize", [k, v]) => match opt(NonZero::new(arg!(boxed(v, arg!(dec(k)))))) {
+            Some(mut w) => {
+                w.zeroize();
+                nzb(&w)
+            }
+            None => "none".into(),
+        },
+        ("c12.odd.b.new", [k, v]) => ct(Odd::new(arg!(boxed(v, arg!(dec(k))))), oddb),
+        ("c12.odd.b.to_odd", [k, v]) => ct(arg!(boxed(v, arg!(dec(k)))).to_odd(), oddb),
+        ("c12.odd.b.default", []) => oddb(&Odd::<BoxedUint>::default()),
+        ("c12.odd.b.random", [bits, s]) => {
+            let mut r = arg!(BufRng::new(s));
+            let w = Odd::<BoxedUint>::random(&mut r, arg!(dec32(bits)));
+            format!("{} {}", oddb(&w), r.pos)
+        }
+        ("c12.odd.b.as_nz_ref", [k, v]) => ct(Odd::new(arg!(boxed(v, arg!(dec(k))))), |w| nzb(w.as_nz_ref())),
+        ("c12.odd.b.clone", [k, v]) => ct(Odd::new(arg!(boxed(v, arg!(dec(k))))), |w| oddb(&w.clone())),
+        ("c12.odd.b.zeroize", [k, v]) => match opt(Odd::new(arg!(boxed(v, arg!(dec(k)))))) {
+            Some(mut w) => {
+                w.zeroize();
+                oddb(&w)
+            }
+            None => "none".into(),
+        },
+        ("c12.odd.b.monty_modulus", [k, v]) => {
+            ct(Odd::new(arg!(boxed(v, arg!(dec(k))))), |w| oddb(BoxedMontyParams::new_vartime(w.clone()).modulus()))
+        }
+        _ => return None,
+    })
+}
+
+pub fn dispatch(op: &str, a: &[&str]) -> Option<String> {
+    if op == "c12.inventory" {
+        // a producer exists in the crate that tools/c12_producers.json (and hence the model) does not know
+        return Some(format!("producer-in-crate:{}", a.join("_")));
+    }
+    if op == "c12.inventory.ok" {
+        return Some(format!("covered {}", a.join(" ")));
+    }
+    let parts: Vec<&str> = op.split('.').collect();
+    if parts.len() < 4 {
+        return None;
+    }
+    match parts[2] {
+        "l" => limb_ops(op, a),
+        "b" => boxed_ops(op, a),
+        "u" | "i" if !a.is_empty() => {
+            let n = arg!(dec(a[0]));
+            let rest = &a[1..];
+            match n {
+                1 => fixed1(op, rest),
+                2 => fixed2(op, rest),
+                4 => fixed4(op, rest),
+                _ => Some("unsupported-width".to_string()),
+            }
+        }
+        _ => None,
+    }
 }
